@@ -446,6 +446,12 @@ func (c *Conc) Docs(w *World, st *Style) []Doc {
 	for i := range w.Routes {
 		docs = append(docs, c.routeDoc(i, &w.Routes[i]))
 	}
+	// objects of the namespace "default" may leave metadata.namespace out (seeded, per object)
+	for i := range docs {
+		if m, ok := docs[i].Obj["metadata"].(obj); ok && m["namespace"] == "default" && st.coin() {
+			delete(m, "namespace")
+		}
+	}
 	return docs
 }
 
